@@ -594,6 +594,9 @@ impl ClientRun {
         stats.sim_ms += self.sim_ms();
         stats.add("probe.connections_opened", self.conns.len() as u64);
         let pt = self.pt.lock().unwrap();
+        if pt.not_a_fault > 0 {
+            stats.add("probe.planned_fault_decodable_for_the_library", pt.not_a_fault);
+        }
         for f in &pt.fired {
             stats.hit(match f.kind {
                 FaultKind::Eof => "fault.eof",
